@@ -2,16 +2,16 @@ SPECIFICATION Spec
 CONSTANTS
   Cfg <- CfgA
   Kinds = {"epic"}
-  Shapes <- ShapesEpic
-  Vias = {0, 1, 3}
+  Shapes <- ShapesEpicQ
+  Vias = {0, 1}
   SrcDom = {"L", "F"}
   DstDom = {"L", "F"}
   Faults = {"none"}
   L4Dom = {"udp"}
-  InSideDom = {0, 1, 2, 3, 999}
-  EgSideDom = {0, 1, 2, 3, 999}
+  InSideDom = {0, 1, 999}
+  EgSideDom = {0, 2, 3, 999}
   PeerDom = {FALSE}
-  ExpDom = {FALSE, TRUE}
+  ExpDom = {FALSE}
   AuthDom <- Auth3
   AlertDom <- NoAlert
   EpicDom <- EpicAll
